@@ -11,6 +11,10 @@ SPEC = {
         {'pkg': 'internal/plugincommon/discovery', 'pkgname': 'discovery',
          'src': 'harness/internal/plugincommon/discovery/c01_test.go', 'test': 'TestVerif_C01_disc', 'fakes': True,
          'sinks': {'C01_disc': 'disc_judge'}, 'n': {'quick': 500, 'thorough': 20000}},
+        {'pkg': 'commit', 'src': 'harness/commit/c01_test.go', 'test': 'TestVerif_C01_plugin', 'fakes': True,
+         'sinks': {'C01_plug': 'plug_judge'}, 'n': {'quick': 300, 'thorough': 10000}},
+        {'pkg': 'commit', 'src': 'harness/commit/c01_test.go', 'test': 'TestVerif_C01_quorum', 'fakes': True,
+         'sinks': {'C01_quorum': 'quorum_judge'}, 'n': {'quick': 100, 'thorough': 2000}},
     ],
     'known': {},   # F03 (discovery on-ramp threshold without agreed dest f) is repaired by fixes/F03.patch, not recorded
     'rule': 'mr: DONs of 4..13 oracles (random ids), F = (N-1)/3 (plus F in {0,-1,random}), destination + 1..4 source chains with '
@@ -21,7 +25,10 @@ SPEC = {
             'retry query, missing destination config, unknown oracle id. Every observation goes through Processor.ValidateObservation, the accepted '
             'ones through getConsensusObservation. disc: same DON shapes; five address maps with counts at {0,1,thr-1,thr,thr+1,all}, zero addresses, '
             'noise keys, no agreement on the destination f (F03 class), failing Sync. '
-            'non-trivial = consensus computed on >= 3 accepted observations (mr) / Sync called once with five maps (disc); distinct by full input',
+            'plug: JSON-encoded plugin observations (merkle-root + discovery parts + top-level fChain), f agreement counts at 2F+1-1/2F+1, per-field counts at the thresholds, '
+            'one oracle repeating an entry 2f+1 times, unsupported chains, off-ramp data from non-destination oracles, fChain <= 0 / inflated; '
+            'quorum: (N, F, count) around F+1, 2F+1, N-F. '
+            'non-trivial = consensus computed on >= 3 accepted observations (mr, plug) / Sync called once with five maps (disc); distinct by full input',
     'trusted': ['home-chain role lookups (GetSupportedChainsForPeer / GetChainConfig) answered by the scripted fake vHomeChain: '
                 'supported(o) = chains whose SupportedNodes contain o',
                 'value identity in the case files = hand-written canonical encoding of every exported field (raw bytes in hex, numbers), '
@@ -37,8 +44,10 @@ SPEC = {
                   'designated reporters; one oracle contributes at most one vote per chain and field; at most f oracles cannot account for an agreed value; '
                   'same for the five discovered address maps. Correspondence: the real functions run against the model and an independent '
                   'distinct-oracle counting property on generated vote vectors every run',
-    'level_note': 'Trusted: Coq kernel, hand-written model, differential harness. No axioms. The plugin-level wiring '
-                  '(commit.Plugin.ValidateObservation -> processor) is not exercised by this check.',
+    'level_note': 'Trusted: Coq kernel, hand-written model, differential harness. No axioms. Plugin level: commit.Plugin built by NewPlugin '
+                  '(discovery enabled, fresh and initialised instances, N in {4,7}, F in {1,2}, partial roles) through ValidateObservation + Outcome, '
+                  'verdicts judged against the MODEL\'s validation; ObservationQuorum = 2F+1 (no C01 theorem assumes a quorum: they hold for every '
+                  'validated observation list).',
     'modelled': 'aggregateObservations, Processor.ValidateObservation (+ ccipChainSupport lookups), getConsensusObservation, '
                 'consensus.GetConsensusMap / minObservation / TwoFPlus1, discovery aggregateObservations + Outcome',
 }
